@@ -1,7 +1,7 @@
 import corpus
 
-PLAN_QUICK = [('exc', ['covmif']), ('exc', ['mif4']), ('ctx', ['mif1']), ('exc', ['cov4', 'trace4']), ('act', ['cov3']), ('ctx', ['v1', 'v4', 'all1', 'nounw1']), ('exc', ['v1', 'v4']), ('act', ['v4'])]
-PLAN_THOROUGH = [('exc', ['covmif']), ('exc', ['mif4', 'mif1']), ('ctx', ['mif1', 'mif4']), ('conv', ['mif1']), ('exc', ['cov4', 'trace4', 'strace1']), ('act', ['cov3', 'cov4']), ('ctx', ['cov4']), ('ctx', ['v1', 'v4', 'all1', 'nounw1', 'v3']), ('exc', ['v1', 'v4', 'all1', 'nounw1']), ('act', ['v4', 'v3', 'all1']), ('core', ['all1']), ('conv', ['all1'])]
+PLAN_QUICK = [('exc', ['infl4', 'inflcov']), ('exc', ['covmif']), ('exc', ['mif4']), ('ctx', ['mif1']), ('exc', ['cov4', 'trace4']), ('act', ['cov3']), ('ctx', ['v1', 'v4', 'all1', 'nounw1']), ('exc', ['v1', 'v4']), ('act', ['v4'])]
+PLAN_THOROUGH = [('exc', ['infl4', 'inflcov', 'covmif', 'mif4', 'mif1', 'cov4', 'trace4', 'strace1', 'v1', 'v4', 'all1', 'nounw1']), ('ctx', ['infl4', 'mif1', 'cov4', 'v1', 'v4', 'all1', 'nounw1', 'v3']), ('act', ['cov3', 'cov4', 'v4', 'v3', 'all1']), ('core', ['all1']), ('conv', ['all1', 'mif1'])]
 
 
 def units(tier, seed):
